@@ -874,7 +874,6 @@ class Knobs:
         self.multi_except = True      # several `% except` clauses (repaired in /repo by 1cb10d7)
         # shapes that hit recorded findings: off in the main streams, on in the `quirks` stream
         self.ret_in_buffered = False
-        self.loop_only_in_closure = False
         self.loop_only_in_call_expr = False
         self.unsized_len = False
         self.closure_mixed = False
@@ -1288,7 +1287,7 @@ class Gen:
             for d in sc.defs:
                 if not self.info[d]["uses_caller"]:
                     body.append(["expr", ["call", d, [["lit", "p"] for _ in range(self.info[d]["arity"])]]])
-        if self.k.enable_loop and (not self.k.loop_only_in_closure or not self.k.loop_only_in_call_expr):
+        if self.k.enable_loop and not self.k.loop_only_in_call_expr:
             fix_loop_scopes(body, self.k)
         return body
 
@@ -1302,25 +1301,18 @@ def _callable_scopes(body):
 
 
 def fix_loop_scopes(body, knobs):
-    """mako gives a `% for` a loop context whenever LoopVariable finds `loop` anywhere below it, but declares
-    `__M_loop` only in scopes that mention `loop` themselves: a loop whose only mention sits in a nested def or a
-    <%call> body (NameError) or in a <%call expr> (not seen at all) hits a recorded finding.  Unless the knobs ask
-    for those shapes, put a direct `${loop.index}` into such loops."""
-    def fix(b, scope_root):
+    """`loop` used ONLY in a <%call expr> under a `% for` is not seen by mako's LoopVariable (recorded finding
+    F-C03-5): unless the knobs ask for that shape, put a direct `${loop.index}` into such loops.  (A mention only
+    inside a nested def or <%call> body is fine since /repo bca4969: the function holding the `% for` then
+    creates its `__M_loop`.)"""
+    def fix(b):
         for n in b:
             if n[0] == "for":
-                own = scope_mentions_loop(n[3]) or iter_mentions_loop(n[2])
-                deep = detected(n)
                 in_call_expr = any(c[0] == "call" and ex_mentions_loop(c[1]) for c in walk(n[3]))
-                if (deep and not scope_mentions_loop(scope_root) and not knobs.loop_only_in_closure) or \
-                        (in_call_expr and not deep and not knobs.loop_only_in_call_expr):
+                if in_call_expr and not detected(n) and not knobs.loop_only_in_call_expr:
                     n[3].append(["expr", ["loop", "index"]])
-                elif deep and not own and not knobs.loop_only_in_closure:
-                    # seen only below a closure: fine when the scope declares __M_loop, which it does iff the
-                    # scope mentions loop somewhere - checked above
-                    pass
             if n[0] in ("if", "for", "while", "try", "with"):
                 for sb in sub_bodies(n):
-                    fix(sb, scope_root)
+                    fix(sb)
     for scope in _callable_scopes(body):
-        fix(scope, scope)
+        fix(scope)
